@@ -58,6 +58,10 @@ FMaxAbs(s) == CHOOSE x : TRUE        \* max |s[i]|, 0 for <<>>
 (***************************************************************************)
 (* Derived, pure TLA+.                                                     *)
 (***************************************************************************)
+\* Bind(x, F) = F(x) with x evaluated exactly once.  TLC evaluates LET-bound expressions
+\* lazily and may re-evaluate them at every use, which is exponential in recursive numeric
+\* code; a value drawn from the singleton set {x} is computed once.
+Bind(x, F(_)) == CHOOSE r \in {F(v) : v \in {x}} : TRUE
 F0 == <<0, 0>>
 F1 == <<1072693248, 0>>
 F2 == <<1073741824, 0>>
